@@ -379,7 +379,9 @@ def s_p06(ctx, T, tx, fee, F, A, label):
 
 def s_p07(ctx, T, tx, fee, F, A, label):
     eng = ctx.eng
-    deadline = z3.BitVecVal(5000000, 128) + sym(ctx, "deadline_after_cursor_ms")
+    # the harness compiler's chain cursor is slot 1000 at 5_000_000 ms: deadlines before and after it
+    base = [4000000, 5000000][eng.choose(2, "deadline before / after the chain cursor")]
+    deadline = z3.BitVecVal(base, 128) + sym(ctx, "deadline_offset_ms")
     lov = sym(ctx, "src.lovelace")
     eng.assume(lov - F >= 0)
     args = amap([("deadline", intarg(T, deadline)), ("alice", A("alice"))])
